@@ -88,6 +88,8 @@ type ctx struct {
 	evals   int
 	seq     int
 	errSeen map[string]int
+	poison  bool
+	nPoison int
 	sigList []string
 	sigSeen map[string]bool
 }
@@ -244,6 +246,69 @@ func (c *ctx) nt(sg string) {
 	c.o.NonTrivial(sg)
 }
 
+// scanText reports a poison value (hook H2: a discarded object that is still referenced) showing up in
+// printed output: a result cell, a printed syntax tree, a variable, a cursor row, a re-read table.
+func (c *ctx) scanText(txt string, where string, sql string) {
+	if !c.poison {
+		return
+	}
+	for needle, what := range poisonTexts() {
+		if i := strings.Index(txt, needle); i >= 0 {
+			lo, hi := i-80, i+len(needle)+40
+			if lo < 0 {
+				lo = 0
+			}
+			if hi > len(txt) {
+				hi = len(txt)
+			}
+			c.poisoned(where, what, sql, txt[lo:hi])
+			return
+		}
+	}
+}
+
+func (c *ctx) poisoned(where, what, sql, excerpt string) {
+	c.nPoison++
+	c.o.Count("poisoned_read:" + where)
+	if c.nPoison <= 12 {
+		c.o.Law("poisoned_read", map[string]string{"sql": sql, "where": where, "poison": what, "excerpt": excerpt})
+	}
+}
+
+// scanView evaluates a SELECT once more through query.Select and looks at the values themselves (this
+// also recognises the NaN poison, which prints like any NaN).
+func (c *ctx) scanView(q string, where string) {
+	if !c.poison {
+		return
+	}
+	view, err := c.pr.Query(q)
+	if err != nil || view == nil {
+		return
+	}
+	for i, rec := range view.RecordSet {
+		for j, cell := range rec {
+			for _, p := range cell {
+				if what := poisonOf(p); what != "" {
+					c.poisoned(where, what, q, fmt.Sprintf("row %d column %d holds the %s poison", i+1, j+1, what))
+					return
+				}
+			}
+		}
+	}
+}
+
+func whereOf(kind string) string {
+	switch kind {
+	case "reread_cursor":
+		return "cursor row"
+	case "reread_variable":
+		return "variable"
+	case "reread_table", "baseline", "final":
+		return "re-read table cell"
+	}
+	return "result cell"
+}
+
 // canon: what two evaluations are compared on.  A failing statement is compared by csvq's error code
 // only: with several workers the row whose error is reported first (and with it the value quoted in the
 // message) depends on the schedule, which is no concern of this property.
@@ -287,10 +352,16 @@ func (c *ctx) execChecked(sql string, kind string) (string, error) {
 	_, err = c.pr.P.Execute(c.pr.Ctx, stmts)
 	out := c.pr.Stdout.String()
 	for i, s := range stmts {
-		if after := stmtText(s); after != before[i] {
+		after := stmtText(s)
+		if after != before[i] {
 			c.o.Law("ast_unchanged", map[string]string{"kind": kind, "sql": sql, "before": before[i], "after": after})
+			c.scanText(after, "syntax tree", sql)
 			break
 		}
+	}
+	c.scanText(out, whereOf(kind), sql)
+	if err != nil {
+		c.scanText(err.Error(), whereOf(kind)+" (error message)", sql)
 	}
 	c.evals++
 	if err != nil {
@@ -333,6 +404,11 @@ var corpus = []string{
 	"SELECT id, COUNT(*) OVER (PARTITION BY grp) FROM t ORDER BY id",
 	"SELECT id, COUNT(n) OVER (), SUM(n) OVER (PARTITION BY grp ORDER BY id) FROM t ORDER BY id",
 	"SELECT grp, COUNT(*), COUNT(DISTINCT s) FROM t GROUP BY grp ORDER BY grp",
+	"SELECT id, NTH_VALUE(n, 2) OVER (ORDER BY id ROWS BETWEEN UNBOUNDED PRECEDING AND UNBOUNDED FOLLOWING) FROM t ORDER BY id",
+	"SELECT id, NTH_VALUE(s, 3) OVER (PARTITION BY grp ORDER BY id), LAG(n, 2, 0) OVER (PARTITION BY grp ORDER BY id), NTILE(3) OVER (ORDER BY id) FROM t ORDER BY id",
+	"SELECT id, s2, s FROM t ORDER BY s2, s, id",
+	"SELECT id, RANK() OVER (PARTITION BY s ORDER BY s2), LISTAGG(s2, ',') OVER (PARTITION BY s) FROM t ORDER BY id",
+	"SELECT DISTINCT s, s2 FROM t ORDER BY s DESC, s2",
 	"SELECT id, s || n, UPPER(s), n + f, -n, DATETIME(d) FROM t WHERE s IN ('alpha', 'Beta') OR n BETWEEN -5 AND 5 ORDER BY id",
 	"SELECT id, CASE WHEN n > 0 THEN 'p' ELSE s END, COALESCE(NULLIF(z, ''), s2), IF(f > 0, f, n) FROM t ORDER BY id",
 }
@@ -352,16 +428,40 @@ func runC14(seed int64, n int, dir string, args []string) {
 	}
 	o := hc.NewOut(dir)
 	evals, crashes, chunks := 0, 0, 0
+	type job struct {
+		k, n   int
+		poison bool
+		corpus bool
+	}
+	var jobs []job
 	for start, k := 0, 0; start < n; start, k = start+chunkSize, k+1 {
 		cn := chunkSize
 		if n-start < cn {
 			cn = n - start
 		}
-		cdir := filepath.Join(dir, fmt.Sprintf("chunk-%d", k))
+		// the discarded-object poisoning (hook H2) is ON in every other workload process; the first chunk
+		// (with the corpus) runs in both modes
+		jobs = append(jobs, job{k, cn, k%2 == 0 && poisonAvailable, k == 0})
+		if k == 0 && poisonAvailable {
+			jobs = append(jobs, job{k, cn, false, true})
+		}
+	}
+	for ji, jb := range jobs {
+		k, cn := jb.k, jb.n
+		cdir := filepath.Join(dir, fmt.Sprintf("chunk-%d-%d", k, ji))
 		cmd := exec.Command(os.Args[0], "-seed", strconv.FormatInt(seed*100003+int64(k), 10), "-n", strconv.Itoa(cn), "-out", cdir)
-		cmd.Env = append(os.Environ(), "C14_CHILD=1")
-		if k == 0 {
+		var env []string
+		for _, e := range os.Environ() {
+			if !strings.HasPrefix(e, "VERIF_POISON_DISCARD=") {
+				env = append(env, e)
+			}
+		}
+		cmd.Env = append(env, "C14_CHILD=1")
+		if jb.corpus {
 			cmd.Env = append(cmd.Env, "C14_CORPUS=1")
+		}
+		if jb.poison {
+			cmd.Env = append(cmd.Env, "VERIF_POISON_DISCARD=1")
 		}
 		var stderr strings.Builder
 		cmd.Stderr = &stderr
@@ -450,7 +550,12 @@ func runChild(seed int64, n int, dir string, withCorpus bool) {
 		panic(err)
 	}
 	defer os.RemoveAll(repo)
-	c := &ctx{g: g, o: o}
+	c := &ctx{g: g, o: o, poison: poisonAvailable && os.Getenv("VERIF_POISON_DISCARD") != ""}
+	if c.poison {
+		o.Count("mode:poison_on")
+	} else {
+		o.Count("mode:poison_off")
+	}
 	defer func() {
 		sb, _ := json.Marshal(c.sigList)
 		_ = os.WriteFile(filepath.Join(dir, "sigs.json"), sb, 0o644)
@@ -574,7 +679,9 @@ func runChild(seed int64, n int, dir string, withCorpus bool) {
 			if e == nil && (len(parts) != 3 || parts[0] != parts[1]) {
 				o.Law("repeat_eval:while", map[string]string{"sql": wsql, "output": out})
 			}
-			c.nt(fmt.Sprintf("corpus/%d/%v", ci, e1 != nil))
+			c.scanView(q, "result cell")
+			c.scanView("SELECT * FROM t", "re-read table cell")
+			c.nt(fmt.Sprintf("corpus/%d/%v/%v", ci, e1 != nil, c.poison))
 		}
 	}
 	for it := 0; it < n; it++ {
@@ -589,6 +696,7 @@ func runChild(seed int64, n int, dir string, withCorpus bool) {
 			if canon(r1, e1) != canon(r2, e2) {
 				o.Law("repeat_eval:plain", map[string]string{"sql": q, "first": canon(r1, e1), "second": canon(r2, e2), "first_error": errText(e1), "second_error": errText(e2)})
 			}
+			c.scanView(q, "result cell")
 			c.nt(fmt.Sprintf("plain/%s/%v/%d", form, e1 != nil, len(r1)%97))
 			if len(o.Samples) < 4 {
 				o.Samples = append(o.Samples, q)
@@ -645,6 +753,8 @@ func runChild(seed int64, n int, dir string, withCorpus bool) {
 			if e != nil || again != baseline {
 				o.Law("reread:table", map[string]string{"second": canon(again, e)})
 			}
+			c.scanView("SELECT * FROM t", "re-read table cell")
+			c.scanView("SELECT * FROM t2", "re-read table cell")
 			c.nt("reread_table")
 		case "reread_cursor":
 			cur := fmt.Sprintf("cur%d", c.seq)
